@@ -413,6 +413,7 @@ pub fn c36_end_to_end() {
         {
             continue;
         }
+        util::arm_abort_report(&prop, None, &json!({"phase": "compiling and smoke-running the simulator dylib (a crash here usually means another process replaced the freshly built dylib)", "flow": name}), 0);
         let (case, attempts) = build_case_checked(name, &inputs_for(name, thorough).0[0]);
         rep.count_n("dylib_rebuilds_after_failed_smoke_run", attempts as u64 - 1);
         cases.push((name, case));
@@ -668,6 +669,7 @@ pub fn c37_end_to_end() {
         {
             continue;
         }
+        util::arm_abort_report(&prop, None, &json!({"phase": "compiling and smoke-running the simulator dylib (a crash here usually means another process replaced the freshly built dylib)", "flow": name}), 0);
         let (case, attempts) = build_case_checked(name, &inputs_for(name, thorough).0[0]);
         rep.count_n("dylib_rebuilds_after_failed_smoke_run", attempts as u64 - 1);
         cases.push((name, case));
